@@ -866,7 +866,9 @@ func (e *Exec) convert(fr *Frame, st *State, xv ssa.Value, to types.Type) Value 
 			if eb, ok := sl.Elem().Underlying().(*types.Basic); ok && eb.Kind() == types.Byte {
 				e.assume(st.pc, Eq(n, App(SInt, "slen", t)))
 				// the new array holds the bytes of the string
-				h := e.heapRead(st, "A_Int", ArrSort(ArrSort(SInt)))
+				// the terms go into a pattern: constants, not macros that expand to an ite over path conditions
+				h := e.patConst(e.heapRead(st, "A_Int", ArrSort(ArrSort(SInt))), "hconv")
+				id = e.patConst(id, "idconv")
 				e.emit("(assert (=> %s (forall ((j!c Int)) (! (= (select (select %s %s) j!c) (sat %s j!c)) :pattern ((select (select %s %s) j!c))))))",
 					st.pc.S, h.S, id.S, t.S, h.S, id.S)
 			} else {
@@ -874,6 +876,19 @@ func (e *Exec) convert(fr *Frame, st *State, xv ssa.Value, to types.Type) Value 
 				e.assume(st.pc, And(Le(n, App(SInt, "slen", t)), Le(App(SInt, "slen", t), App(SInt, "*", IntLit(4), n)), Le(IntLit(0), n)))
 			}
 			return e.def(SSl, App(SSl, "mk-sl", id, IntLit(0), n, n))
+		}
+		return v
+	case isFloat(to) && isFloat(from):
+		// widening (float32 -> float64) is exact: the same abstract value; narrowing rounds: an uninterpreted
+		// function of the value, so that a comparison made after narrowing is not the comparison of the values
+		fb, _ := from.Underlying().(*types.Basic)
+		tb, _ := to.Underlying().(*types.Basic)
+		if t, isT := v.(*Term); isT && fb != nil && tb != nil && fb.Kind() == types.Float64 && tb.Kind() == types.Float32 {
+			if !e.declared["f64to32"] {
+				e.declared["f64to32"] = true
+				e.emit("(declare-fun f64to32 (Int) Int)")
+			}
+			return e.def(SInt, App(SInt, "f64to32", t))
 		}
 		return v
 	case isFloat(to) || isFloat(from):
@@ -889,6 +904,16 @@ func (e *Exec) convert(fr *Frame, st *State, xv ssa.Value, to types.Type) Value 
 		return v
 	}
 	return v
+}
+
+// patConst: a term that is to appear in a quantifier pattern, as a declared constant when it is a macro or compound.
+func (e *Exec) patConst(t *Term, hint string) *Term {
+	if !strings.Contains(t.S, "(") && !strings.HasPrefix(t.S, "v!") {
+		return t
+	}
+	c := e.fresh(t.Sort, hint)
+	e.emit("(assert (= %s %s))", c.S, t.S)
+	return c
 }
 
 func (e *Exec) typeAssert(fr *Frame, st *State, x *ssa.TypeAssert) (Value, bool) {
@@ -1145,7 +1170,24 @@ func (e *Exec) flushHashFacts() {
 	e.hashDone = len(e.tagOrder)
 }
 
-func (e *Exec) atPanic(fr *Frame, st *State, x *ssa.Panic) {}
+func (e *Exec) atPanic(fr *Frame, st *State, x *ssa.Panic) { e.acceptsCheck(fr, st, "panic", e.posOf(x)) }
+
+// acceptsCheck (accepts clauses): a raise site - a panic instruction or a call of a function that never
+// returns, in the function under contract or in what is inlined into it - must be unreachable from an entry
+// state that satisfies the clause.
+func (e *Exec) acceptsCheck(fr *Frame, st *State, what, pos string) {
+	root := e.rootFrame(fr)
+	c := e.contractOf(root.fn)
+	if c == nil || len(c.Accepts) == 0 || e.entry == nil {
+		return
+	}
+	for i, cl := range c.Accepts {
+		en := e.newEnv(root, e.entry, e.entry)
+		en.inOld = true
+		g := e.evalClause(en, cl)
+		e.oblige(st, "accepts", clauseName(cl, i)+":"+what, Not(g), pos)
+	}
+}
 
 func (e *Exec) exactShl(fr *Frame, x *ssa.BinOp, at *Term, n int64) {
 	if !e.Opt.Exact {
@@ -1185,7 +1227,79 @@ func capturedOnly(x *ssa.Alloc) bool {
 }
 
 // onStore checks the contract's on-store assertions for a store to a struct field.
+// sharedPrinter: the value is (or points into) the process-wide printer handed out by slip.DefaultPrinter().
+func sharedPrinter(v ssa.Value, depth int) bool {
+	if depth > 6 || v == nil {
+		return false
+	}
+	switch x := v.(type) {
+	case *ssa.Call:
+		if f := x.Call.StaticCallee(); f != nil && f.Name() == "DefaultPrinter" && f.Pkg != nil && f.Pkg.Pkg != nil && f.Pkg.Pkg.Path() == ModPath {
+			return true
+		}
+	case *ssa.FieldAddr:
+		return sharedPrinter(x.X, depth+1)
+	case *ssa.ChangeType:
+		return sharedPrinter(x.X, depth+1)
+	case *ssa.Phi:
+		for _, ed := range x.Edges {
+			if sharedPrinter(ed, depth+1) {
+				return true
+			}
+		}
+	case *ssa.UnOp:
+		// a pointer variable kept in a cell (captured by a closure): what was stored into the cell
+		if a, ok := x.X.(*ssa.Alloc); ok && x.Op == token.MUL && a.Referrers() != nil {
+			for _, r := range *a.Referrers() {
+				if sto, ok := r.(*ssa.Store); ok && sto.Addr == a && sharedPrinter(sto.Val, depth+1) {
+					return true
+				}
+			}
+		}
+	}
+	return false
+}
+
+// sharedPrinterTouch (package-wide clause shared-printer-kept): a store through the pointer that
+// slip.DefaultPrinter() returns, or handing that pointer to a module function that stores to Printer fields,
+// is counted in the ghost counter $nstore_sharedprinter.
+func (e *Exec) sharedPrinterTouch(st *State, in ssa.Instruction) {
+	const k = "L$nstore_sharedprinter"
+	if st.heap[k] == nil {
+		return
+	}
+	hit := false
+	switch x := in.(type) {
+	case *ssa.Store:
+		hit = sharedPrinter(x.Addr, 0)
+	case *ssa.Call:
+		callee := x.Call.StaticCallee()
+		if callee == nil || !inModule(callee) {
+			break
+		}
+		for _, a := range x.Call.Args {
+			if !sharedPrinter(a, 0) {
+				continue
+			}
+			sp := e.P.SPkgs[ModPath]
+			if sp == nil || sp.Pkg.Scope().Lookup("Printer") == nil {
+				break
+			}
+			pfx := "F_" + structName(sp.Pkg.Scope().Lookup("Printer").Type()) + "_"
+			for c := range e.P.ModSetOf(callee).Comps {
+				if strings.HasPrefix(c, pfx) {
+					hit = true
+				}
+			}
+		}
+	}
+	if hit {
+		st.heap[k] = e.def(SInt, Add(st.heap[k], IntLit(1)))
+	}
+}
+
 func (e *Exec) onStore(fr *Frame, st *State, x *ssa.Store, c *Contract) {
+	e.sharedPrinterTouch(st, x)
 	if fa, ok := x.Addr.(*ssa.FieldAddr); ok && fr.parent == nil && allocRoot(fa.X) == nil {
 		if stt := derefStruct(fa.X.Type()); stt != nil {
 			if k := "L$nstore_" + stt.s.Field(fa.Field).Name(); st.heap[k] != nil {
